@@ -41,6 +41,9 @@ func isAppHelperCall(i ssa.Instruction) bool {
 	if cc == nil {
 		return false
 	}
+	if syncHelperCallee(i) != nil {
+		return false // a new helper: its body is analysed as part of the caller
+	}
 	n := CalleeName(cc)
 	return strings.HasPrefix(n, appPkg+".") || n == ModPath+"/app/types.NewRequest"
 }
@@ -118,7 +121,7 @@ func runC17(c *Ctx) {
 			}
 		})
 		isSens := func(i ssa.Instruction) bool { return i != cb && (isStoreCall(i) || isAppHelperCall(i)) }
-		if hit, _ := (&Walk{Target: isSens}).FromBlock(ifi.Block().Succs[fail]); hit != nil {
+		if hit, _ := (&Walk{Target: isSens, Ctx: f}).FromBlock(ifi.Block().Succs[fail]); hit != nil {
 			bad = CalleeName(CallOf(hit)) + " at " + p.Pos(hit.Pos()) + " is reachable after the check failed"
 		}
 		// nothing sensitive before the check
@@ -129,8 +132,8 @@ func runC17(c *Ctx) {
 		// ---- C17.C
 		w := ssa.Value(f.Params[2])
 		is401 := func(i ssa.Instruction) bool { st, ok := producesResponse(i, w); return ok && st == 401 }
-		hit, _ := (&Walk{Target: IsReturn, Avoid: is401}).FromBlock(ifi.Block().Succs[fail])
-		other, _ := (&Walk{Target: func(i ssa.Instruction) bool { st, ok := producesResponse(i, w); return ok && st != 401 }}).FromBlock(ifi.Block().Succs[fail])
+		hit, _ := (&Walk{Target: IsReturn, Avoid: is401, Ctx: f}).FromBlock(ifi.Block().Succs[fail])
+		other, _ := (&Walk{Target: func(i ssa.Instruction) bool { st, ok := producesResponse(i, w); return ok && st != 401 }, Ctx: f}).FromBlock(ifi.Block().Succs[fail])
 		c.Check("C17.C", ep+":401-only", p, ifi.Pos(), hit == nil && other == nil, "a failed check is answered 401 on every path and nothing else is written", "a failed backend check in "+ep+" is not answered with exactly 401 (other status, or a path without answer)")
 		// ---- C17.B: backendID roles
 		EachInstr(f, func(i ssa.Instruction) {
@@ -551,7 +554,7 @@ func ruleStoreKeys(c *Ctx, p *Prog, rule string) {
 	for _, kf := range []struct {
 		fn string
 		n  int
-	}{{"app/cache.memcacheRequestKey", 2}, {"app/cache.memcacheResponseKey", 2}, {"app/store.requestKind", 1}} {
+	}{{"app/store.requestKind", 1}} {
 		f := p.Func(kf.fn)
 		if f == nil {
 			c.Unk(rule, "key-injective:"+kf.fn, p, 0, "key constructor not found")
@@ -581,20 +584,5 @@ func ruleStoreKeys(c *Ctx, p *Prog, rule string) {
 		}
 		c.Check(rule, "key-injective:"+kf.fn, p, f.Pos(), ok, "the key is fmt.Sprintf with every component quoted (%q): distinct (backend ID, request ID) pairs give distinct keys", "key constructor "+kf.fn+": "+why+": components containing the delimiter make different (backend ID, request ID) pairs collide, so one backend's agent can read or answer another backend's requests")
 	}
-	// memcache key roles
-	for _, pair := range [][3]string{{"WriteRequest", "ReadRequest", "memcacheRequestKey"}, {"WriteResponse", "ReadResponse", "memcacheResponseKey"}} {
-		wf := p.Func("app/cache.(*cachingStore)." + pair[0])
-		rf := p.Func("app/cache.(*cachingStore)." + pair[1])
-		if wf == nil || rf == nil {
-			continue
-		}
-		kw := Calls(wf, ModPath+"/app/cache."+pair[2])
-		kr := Calls(rf, ModPath+"/app/cache."+pair[2])
-		ok := len(kw) == 1 && len(kr) == 1 && len(CallOf(kw[0]).Args) == 2 && len(CallOf(kr[0]).Args) == 2
-		if ok {
-			aw, ar := CallOf(kw[0]).Args, CallOf(kr[0]).Args
-			ok = PathOf(aw[0]) == P(wf, 2)+".BackendID" && PathOf(aw[1]) == P(wf, 2)+".RequestID" && PathOf(ar[0]) == P(rf, 2) && PathOf(ar[1]) == P(rf, 3)
-		}
-		c.Check(rule, "memcache-key-roles:"+pair[2], p, 0, ok, "write and read build the cache key with "+pair[2]+"(backendID, requestID) in the same roles", "the cache key of "+pair[0]+"/"+pair[1]+" is not built by "+pair[2]+" from (backend ID, request ID) in the same roles on both sides: entries of different backends/requests can be confused")
-	}
+	ruleCacheKeysByUse(c, p, rule)
 }
